@@ -1,8 +1,8 @@
 (* C05 -- hand model of the GENERAL path of base.tr2angvec (tr2angvec -> trlog general branch -> vex -> norm / unitvec),
-   as the code is since /repo 84bd1d7:
+   as the code is since /repo 84bd1d7 / 7d9131b:
        skw = (R - R.T)/2 ; st = norm(vex(skw)) ; theta = atan2(st, (trace(R) - 1)/2) ; L = skw/st*theta
-       v = vex(L) ; (norm(v), v/norm(v))
-   The branch tests around it (iseye, |trace + 1| < 100 eps half-turn branch, iszerovec, unitvec's 100 eps) are NOT part of
+       v = vex(L) ; theta = norm(v) ; (theta, v / theta)          (v / theta since /repo 7d9131b; before: unitvec(v))
+   The branch tests around it (iseye, |trace + 1| < 100 eps half-turn branch, iszerovec, st == 0) are NOT part of
    this model: it is tied to the implementation (float correspondence) on rotations by 1e-6 .. pi - 1e-6, where the code
    takes this path; the other paths are covered by the oracle only. *)
 From Coq Require Import Reals ZArith Lra Nsatz Psatz.
